@@ -41,6 +41,13 @@ def build_phase(need_gen=False):
         c.leaf_c, e = common.build_c('leaf_driver', os.path.join(ROOT, 'harness', 'c', 'leaf_driver.c'))
         if e:
             c.errors.append(('leaf_driver', e))
+        c.ref = None
+        if need_gen:
+            try:
+                import refbuild
+                c.ref = refbuild.build_ref_driver(os.path.join(BUILD, 'cxx'))
+            except Exception as ex:     # noqa: BLE001
+                c.errors.append(('ref_driver', str(ex)[-2000:]))
         c.build_s = time.time() - t0
     return c
 
@@ -669,7 +676,346 @@ GEN_RULE = ('each case = one schema (9 fixed protos + random schemas from harnes
             'same lines from the schema; compared per line kind; plus an oracle that checks the real output against the schema itself')
 
 
-CHECKS = {'C11': check_C11, 'C12': gen_check('C12', GEN_RULE), 'C13': gen_check('C13', GEN_RULE), 'C15': gen_check('C15', GEN_RULE), 'C20': gen_check('C20', GEN_RULE), 'C19': check_C19, 'C01': check_C01, 'C18': check_C18, 'C02': check_C02, 'C14': check_C14, 'C16': check_C16, 'C17': check_C17}
+# ---------------------------------------------------------------- checks tied to the reference implementation (libprotobuf)
+def run_ref(ctx, env, lines, tag):
+    rc, out, err = run_driver(ctx.ref, env.text() + '\n'.join(lines) + '\n', tag, pre_args=['--lax-utf8'])
+    return out, err
+
+
+def viol(run, name, text):
+    if len(run.violations) < 3:
+        run.violation(run.replay('%s-%d.txt' % (name, len(run.violations)), text), False)
+
+
+def check_C03(tier, seed):
+    import refnorm
+    run = Run('C03', tier, seed)
+    ctx = build_phase(need_gen=True)
+    gate, obl = gate_and_ties(run, ctx, 'C03', seed, tier)
+    rnd = random.Random(seed * 1000003 + 3)
+    st = Stats()
+    envs = envs_for(rnd, tier, 12, 100)
+    per_env = 40 if tier == 'quick' else 120
+    tally = {'pack_bytes_identical': 0, 'reference_reads_back_original': 0, 'cases': 0}
+    for env in envs:
+        st.schemas += 1
+        lines, msgs = stream_pack(rnd, env, st, per_env, canon=True)
+        c_out, m_out, bad, c_err, text = corr(run, ctx, env, lines, 'c03')
+        if bad or len(c_out) != len(lines):
+            viol(run, 'disagreement', open(report_disagreement(run, env.text(), lines, c_out, m_out, bad, c_err, 'Impl <-> C correspondence (pack) disagrees')).read())
+            if len(c_out) != len(lines):
+                continue
+        if not ctx.ref:
+            continue
+        r_out, r_err = run_ref(ctx, env, lines, 'c03r')
+        ul = ['UNPACK %s %s' % (l.split()[2], refnorm.pack_hex(o) or '-') for l, o in zip(lines, c_out)]
+        u_out, u_err = run_ref(ctx, env, ul, 'c03u')
+        if r_out[:1] and r_out[0].startswith('ENVERR'):
+            run.notes.append('reference cannot express a generated schema: ' + r_out[0]); continue
+        for i, l in enumerate(lines):
+            tally['cases'] += 1
+            ch = refnorm.pack_hex(c_out[i])
+            rh = refnorm.pack_hex(r_out[i]) if i < len(r_out) else None
+            if ch is None or rh is None or ch != rh:
+                viol(run, 'oracle', 'protobuf-c and the reference serialise the same message to different bytes\n--- schema + case\n%s%s\n--- protobuf-c\n%s\n--- libprotobuf\n%s\n'
+                     % (env.text(), l, c_out[i][:3000], r_out[i][:3000] if i < len(r_out) else '<none>'))
+            else:
+                tally['pack_bytes_identical'] += 1
+            want = refnorm.normalise('U ' + l.split(' ', 1)[1], env)
+            got = refnorm.normalise(u_out[i], env) if i < len(u_out) else '<none>'
+            if got != want:
+                viol(run, 'oracle', 'the reference parses the bytes protobuf-c packed to a different value (or rejects them)\n--- schema + original message\n%s%s\n--- packed by protobuf-c\n%s\n--- parsed by libprotobuf\n%s\n'
+                     % (env.text(), l, ul[i], got[:3000]))
+            else:
+                tally['reference_reads_back_original'] += 1
+    run.cov['reference_tie'] = tally
+    finish_stats(run, st, 'random schemas x canonical messages: PACK on protobuf-c, on the extracted model and on libprotobuf (deterministic serialisation): '
+                          'bytes must be identical; the bytes protobuf-c packed are parsed by libprotobuf and the result (normal form of harness/gen/refnorm.py: '
+                          'values bit-exact, presence, order, oneof member, unknown fields) must be the original message')
+    return conclude(run, gate, obl)
+
+
+def valid_variant(rnd, env, m, split=False):
+    no_req = lambda desc: not any(f.label == 'REQ' for f in desc.fields)
+    o = casegen.Opts(rnd, shuffle=rnd.random() < 0.7, pad=rnd.random() < 0.5, repack=rnd.random() < 0.6,
+                     split=split, stale=rnd.random() < 0.5, unknown=rnd.random() < 0.4, split_ok=no_req)
+    return casegen.encode(env, m, o), o
+
+
+def check_C04(tier, seed, pid='C04'):
+    import refnorm
+    run = Run(pid, tier, seed)
+    ctx = build_phase(need_gen=True)
+    gate, obl = gate_and_ties(run, ctx, pid, seed, tier)
+    rnd = random.Random(seed * 1000003 + (4 if pid == 'C04' else 10))
+    st = Stats()
+    envs = envs_for(rnd, tier, 14, 120)
+    per_env = 40 if tier == 'quick' else 120
+    tally = {'cases': 0, 'c_equals_reference': 0, 'equals_original': 0}
+    split = pid == 'C10'
+    for env in envs:
+        st.schemas += 1
+        lines, origs, hasunk = [], [], []
+        for _ in range(per_env):
+            d = rnd.randrange(len(env.msgs))
+            m = casegen.gen_msg(rnd, env, d, canon=True)
+            bs, o = valid_variant(rnd, env, m, split=split)
+            l = 'UNPACK %d %s' % (d, casegen.hexs(bs))
+            lines.append(l); origs.append('U ' + casegen.msg_text(m)); hasunk.append(o.unknown)
+            st.add('UNPACK:' + ('split+stale' if split else 'reencoded'), l)
+        c_out, m_out, bad, c_err, text = corr(run, ctx, env, lines, pid.lower())
+        if bad or len(c_out) != len(lines):
+            viol(run, 'disagreement', open(report_disagreement(run, env.text(), lines, c_out, m_out, bad, c_err, 'Impl <-> C correspondence (unpack) disagrees')).read())
+            if len(c_out) != len(lines):
+                continue
+        r_out = []
+        if ctx.ref:
+            r_out, r_err = run_ref(ctx, env, lines, pid.lower() + 'r')
+            if r_out[:1] and r_out[0].startswith('ENVERR'):
+                run.notes.append('reference cannot express a generated schema: ' + r_out[0]); r_out = []
+        for i, l in enumerate(lines):
+            tally['cases'] += 1
+            cn = refnorm.normalise(c_out[i], env)
+            if c_out[i] == 'U FAIL':
+                viol(run, 'oracle', 'a valid encoding was rejected\n--- schema + case\n%s%s\n--- value encoded\n%s\n' % (env.text(), l, origs[i][:3000]))
+                continue
+            if r_out:
+                rn = refnorm.normalise(r_out[i], env) if i < len(r_out) else '<none>'
+                if cn != rn:
+                    viol(run, 'oracle', 'protobuf-c and the reference read the same valid encoding differently\n--- schema + case\n%s%s\n--- protobuf-c\n%s\n--- libprotobuf\n%s\n'
+                         % (env.text(), l, cn[:3000], rn[:3000]))
+                else:
+                    tally['c_equals_reference'] += 1
+            if not hasunk[i]:
+                if cn != refnorm.normalise(origs[i], env):
+                    viol(run, 'oracle', 'a re-encoding of a value was not read back as that value\n--- schema + case\n%s%s\n--- protobuf-c\n%s\n--- value encoded\n%s\n'
+                         % (env.text(), l, cn[:3000], origs[i][:3000]))
+                else:
+                    tally['equals_original'] += 1
+    run.cov['reference_tie'] = tally
+    if pid == 'C10':
+        # the two listed findings: replayed; reported as KNOWN-FINDING while they still differ from the reference
+        for f in common.load_findings().get('findings', []):
+            if f.get('property') != 'C10' or not ctx.ref:
+                continue
+            p = os.path.join(ROOT, 'harness', 'cxx', 'ref_findings', f['reproducer'])
+            txt = open(p).read()
+            rc1, co, _ = run_driver(ctx.impl, txt, 'c10f')
+            rc2, ro, _ = run_driver(ctx.ref, txt, 'c10fr', pre_args=['--lax-utf8'])
+            env_t = refnorm.parse_env(txt)
+            if [refnorm.normalise(x, env_t) for x in co] != [refnorm.normalise(x, env_t) for x in ro]:
+                if co[:1] == [f['c_first_line']]:
+                    run.known.append('%s: %s' % (f['reproducer'], f['what']))
+                else:
+                    viol(run, 'finding', 'the reproducer of a listed finding behaves differently now\n%s\nprotobuf-c: %s\nreference: %s\n' % (f['reproducer'], co, ro))
+    finish_stats(run, st, ('random schemas x canonical messages re-encoded by the Python reference encoder: fields shuffled, varints / keys / lengths padded, '
+                           'repeated scalars packed / unpacked / mixed, stale earlier values for singular scalars, unknown fields interleaved'
+                           + (', embedded messages (without required fields) split over 2-3 occurrences' if split else '') +
+                           '; UNPACK on protobuf-c, the extracted model and libprotobuf; results compared in the normal form of refnorm.py, and with the encoded value'))
+    return conclude(run, gate, obl)
+
+
+def check_C10(tier, seed):
+    return check_C04(tier, seed, pid='C10')
+
+
+def check_C09(tier, seed):
+    import refnorm
+    run = Run('C09', tier, seed)
+    ctx = build_phase(need_gen=True)
+    gate, obl = gate_and_ties(run, ctx, 'C09', seed, tier)
+    rnd = random.Random(seed * 1000003 + 9)
+    st = Stats()
+    envs = envs_for(rnd, tier, 14, 120)
+    per_env = 30 if tier == 'quick' else 100
+    tally = {'cases': 0, 'survived_old_program': 0, 'reference_agrees': 0}
+    for env in envs:
+        st.schemas += 1
+        old = casegen.older_schema(rnd, env, keep=rnd.choice([0.0, 0.3, 0.6, 0.9]))
+        lines, origs = [], []
+        for _ in range(per_env):
+            d = rnd.randrange(len(env.msgs))
+            m = casegen.gen_msg(rnd, env, d, canon=True)
+            o = casegen.Opts(rnd, shuffle=rnd.random() < 0.5, pad=False, repack=False, unknown=rnd.random() < 0.3)
+            bs = casegen.encode(env, m, o)
+            lines.append('RT %d %s' % (d, casegen.hexs(bs))); origs.append(m)
+            st.add('RT:old-schema', lines[-1])
+        # the old program: unpack + pack under the old schema
+        c_out, m_out, bad, c_err, text = corr(run, ctx, old, lines, 'c09o')
+        if bad or len(c_out) != len(lines):
+            viol(run, 'disagreement', open(report_disagreement(run, old.text(), lines, c_out, m_out, bad, c_err, 'Impl <-> C correspondence (unpack+pack under the older schema) disagrees')).read())
+            if len(c_out) != len(lines):
+                continue
+        # the new program reads what the old one wrote, and what the producer wrote: same value
+        back, direct = [], []
+        for l, o in zip(lines, c_out):
+            t = o.split()
+            d = l.split()[1]
+            back.append('UNPACK %s %s' % (d, t[3] if len(t) > 3 and t[0] == 'RT' and t[1] != 'FAIL' else 'ff'))
+            direct.append('UNPACK %s %s' % (d, l.split()[2]))
+        b_out, bm_out, bad2, b_err, _ = corr(run, ctx, env, back + direct, 'c09n')
+        if bad2 or len(b_out) != 2 * len(lines):
+            viol(run, 'disagreement', open(report_disagreement(run, env.text(), back + direct, b_out, bm_out, bad2, b_err, 'Impl <-> C correspondence (unpack under the newer schema) disagrees')).read())
+            if len(b_out) != 2 * len(lines):
+                continue
+        r_out = []
+        if ctx.ref:
+            r_out, _ = run_ref(ctx, env, back, 'c09r')
+            if r_out[:1] and r_out[0].startswith('ENVERR'):
+                r_out = []
+        n = len(lines)
+        for i in range(n):
+            tally['cases'] += 1
+            a = refnorm.normalise(b_out[i], env); b = refnorm.normalise(b_out[n + i], env)
+            if c_out[i].startswith('RT FAIL') or a != b:
+                viol(run, 'oracle', 'data written under the newer schema does not read back unchanged after unpack+pack by a program built against the older schema\n'
+                                    '--- newer schema\n%s--- older schema\n%s--- case (bytes from the producer)\n%s\n--- old program output\n%s\n--- new program reads the producer bytes as\n%s\n--- and the old program output as\n%s\n'
+                     % (env.text(), old.text(), lines[i], c_out[i][:2000], b[:2000], a[:2000]))
+            else:
+                tally['survived_old_program'] += 1
+            if r_out and i < len(r_out):
+                if refnorm.normalise(r_out[i], env) == a:
+                    tally['reference_agrees'] += 1
+                else:
+                    viol(run, 'oracle', 'the reference reads the bytes re-serialised by the old program differently from protobuf-c\n--- newer schema\n%s--- case\n%s\n--- protobuf-c\n%s\n--- libprotobuf\n%s\n'
+                         % (env.text(), back[i], a[:2000], refnorm.normalise(r_out[i], env)[:2000]))
+    run.cov['two_schema_oracle'] = tally
+    finish_stats(run, st, 'pairs (newer schema, older schema = newer with a random subset of the fields outside oneofs removed, keep ratio 0/0.3/0.6/0.9) x '
+                          'canonical messages of the newer schema encoded by the Python reference encoder (optionally shuffled, extra unknown fields): RT (unpack + pack) under the '
+                          'older schema on protobuf-c and the model, then UNPACK under the newer schema of the result and of the producer bytes: same value; libprotobuf reads the result the same way')
+    return conclude(run, gate, obl)
+
+
+def check_C06(tier, seed):
+    run = Run('C06', tier, seed)
+    ctx = build_phase()
+    gate, obl = gate_and_ties(run, ctx, 'C06', seed, tier)
+    rnd = random.Random(seed * 1000003 + 6)
+    st = Stats()
+    envs = envs_for(rnd, tier, 14, 120)
+    per_env = 60 if tier == 'quick' else 160
+    tally = {'inputs': 0, 'accepted': 0, 'stable': 0}
+
+    def oracle(env, lines, c_out):
+        out = []
+        for i, (l, o) in enumerate(zip(lines, c_out)):
+            tally['inputs'] += 1
+            t = o.split()
+            if len(t) < 2 or t[0] != 'RT':
+                out.append((i, 'unexpected driver output')); continue
+            if t[1] == 'FAIL':
+                continue
+            tally['accepted'] += 1
+            if len(t) < 6:
+                out.append((i, 'unexpected driver output')); continue
+            chk, size, pk, chunks, r2 = t[1], int(t[2]), t[3], t[4], t[5]
+            pk = '' if pk == '-' else pk
+            chunks = '' if chunks == '-' else chunks
+            if chk != '1':
+                out.append((i, 'the parser accepted the input but protobuf_c_message_check rejects the result'))
+            elif size != len(pk) // 2:
+                out.append((i, 'get_packed_size and pack disagree on a parsed message'))
+            elif chunks != pk:
+                out.append((i, 'pack_to_buffer and pack disagree on a parsed message'))
+            elif r2 == 'FAIL2':
+                out.append((i, 'the parser refuses what the serialiser wrote for a message it had accepted'))
+            elif ('' if r2 == '-' else r2) != pk:
+                out.append((i, 'serialising the re-parsed message does not reproduce the first serialisation'))
+            else:
+                tally['stable'] += 1
+        return out
+    run_corr_streams(run, ctx, rnd, envs, per_env, st, [lambda r, e, s, n: stream_unpack(r, e, s, n, op='RT')], 'rt', oracle)
+    run.cov['stability'] = tally
+    finish_stats(run, st, 'random schemas x inputs of every kind (special inputs: empty, padded keys, zero-field keys, over-long varints, wire-type mismatches for bool; '
+                          'canonical; re-encoded; corrupted; random bytes): RT = unpack, then message_check, get_packed_size, pack, pack_to_buffer, unpack of the result, pack again; '
+                          'on protobuf-c (ASan/UBSan) and the extracted model; oracle on protobuf-c: accepted => check passes, the three serialisers agree, the output re-parses and re-serialises identically')
+    return conclude(run, gate, obl)
+
+
+def check_C05(tier, seed):
+    run = Run('C05', tier, seed)
+    ctx = build_phase()
+    gate, obl = gate_and_ties(run, ctx, 'C05', seed, tier)
+    rnd = random.Random(seed * 1000003 + 5)
+    st = Stats()
+    envs = envs_for(rnd, tier, 16, 150, big_every=4, oneof_defaults=True)
+    per_env = 80 if tier == 'quick' else 250
+    t0 = time.time()
+    bad_envs = run_corr_streams(run, ctx, rnd, envs, per_env, st, [lambda r, e, s, n: stream_unpack(r, e, s, n)], 'unpack')
+    run.cov['sanitizers'] = 'impl_driver built with -fsanitize=address,undefined -fno-sanitize-recover=all; every input is copied into an exact-size heap block before unpack; a sanitizer report aborts the driver, which shows as a missing output line (= disagreement)'
+    run.cov['watchdog'] = 'driver timeout 600 s per schema batch (%d inputs); observed total %.1f s' % (st.n, time.time() - t0)
+    finish_stats(run, st, 'random schemas (all field kinds, oneofs with and without defaults, generic and generated initialisers, up to 200 fields) x '
+                          'special inputs (empty, truncated, padded, zero keys, huge lengths), canonical, re-encoded, corrupted (bit flips, truncation, length tampering) and random byte strings: '
+                          'UNPACK on protobuf-c under ASan/UBSan and on the extracted model; any sanitizer report, crash or hang of the C driver is a violation')
+    return conclude(run, gate, obl)
+
+
+def alloc_check(pid, tier, seed):
+    """C07 (plan '-': everything returned, nothing foreign freed) and C08 (every single refusal point, k+, subsets)"""
+    run = Run(pid, tier, seed)
+    ctx = build_phase()
+    gate, obl = gate_and_ties(run, ctx, pid, seed, tier, need_leaf=False)
+    rnd = random.Random(seed * 1000003 + (7 if pid == 'C07' else 8))
+    st = Stats()
+    envs = envs_for(rnd, tier, 10, 80, oneof_defaults=True)
+    per_env = 14 if tier == 'quick' else 40
+    tally = {'traces': 0, 'accepted_by_monitor': 0, 'events': 0, 'refusal_points': 0}
+    for env in envs:
+        st.schemas += 1
+        inputs = []
+        for _ in range(per_env):
+            d = rnd.randrange(len(env.msgs))
+            m = casegen.gen_msg(rnd, env, d, canon=True)
+            r = rnd.random()
+            if r < 0.5:
+                bs, _o = valid_variant(rnd, env, m, split=True)
+            elif r < 0.8:
+                bs = casegen.corrupt(rnd, casegen.encode(env, m, casegen.CANON))
+            else:
+                bs = casegen.encode(env, m, casegen.CANON)
+            inputs.append((d, casegen.hexs(bs)))
+        base = ['UNPACKT %d %s -' % (d, h) for d, h in inputs]
+        rc, b_out, b_err = run_driver(ctx.impl, env.text() + '\n'.join(base) + '\n', pid.lower() + 'b')
+        if len(b_out) != len(base):
+            viol(run, 'crash', 'the driver died while unpacking with a recording allocator\n--- schema\n%s--- stderr\n%s\n' % (env.text(), b_err[-3000:]))
+            continue
+        lines = list(base)
+        if pid == 'C08':
+            lines = []
+            for (d, h), o in zip(inputs, b_out):
+                nreq = sum(1 for t in o.split()[1:] if t[0] in 'ar')
+                ks = list(range(nreq)) if nreq <= 24 or tier != 'quick' else sorted(rnd.sample(range(nreq), 24))
+                for k in ks:
+                    lines.append('UNPACKT %d %s %d' % (d, h, k)); tally['refusal_points'] += 1
+                if nreq:
+                    lines.append('UNPACKT %d %s %d+' % (d, h, rnd.randrange(nreq)))
+                    lines.append('UNPACKT %d %s %s' % (d, h, ','.join(map(str, sorted(set(rnd.randrange(nreq) for _ in range(3)))))))
+        for l in lines:
+            st.add('UNPACKT', l)
+        rc, c_out, c_err = run_driver(ctx.impl, env.text() + '\n'.join(lines) + '\n', pid.lower())
+        if len(c_out) != len(lines):
+            viol(run, 'crash', 'the driver died (crash / sanitizer report) while unpacking with refused allocations\n--- schema + last case\n%s%s\n--- stderr\n%s\n'
+                 % (env.text(), lines[len(c_out)] if len(c_out) < len(lines) else '?', c_err[-3000:]))
+            continue
+        led = ['LEDGER' + o[1:] for o in c_out]
+        rc, l_out, l_err = run_driver(ctx.model, env.text() + '\n'.join(led) + '\n', pid.lower() + 'l')
+        for i, (l, o) in enumerate(zip(lines, c_out)):
+            tally['traces'] += 1; tally['events'] += len(o.split()) - 1
+            v = l_out[i] if i < len(l_out) else '?'
+            if v == 'L 1':
+                tally['accepted_by_monitor'] += 1
+            else:
+                viol(run, 'oracle', 'the allocation discipline is violated on this run (verified monitor Impl/Ledger.v rejects the trace: %s)\n'
+                                    'events: a<i>:<size> granted, r<i>:<size> refused, f<i> freed, x bad free, U1/U0 unpack returned message/NULL, F free_unpacked returned\n'
+                                    '--- schema + case\n%s%s\n--- trace\n%s\n' % (v, env.text(), l, o[:4000]))
+    run.cov['ledger'] = tally
+    finish_stats(run, st, 'random schemas x inputs (valid re-encodings incl. split sub-messages = merge paths, corrupted, canonical): protobuf_c_message_unpack with a recording allocator, '
+                          + ('failure-free' if pid == 'C07' else 'with the k-th request refused for EVERY k below the request count of the failure-free run (quick: at most 24 per input), plus k+ and random subsets')
+                          + ', then free_unpacked; the allocator event trace of the real run is judged by the extracted, proved-sound monitor')
+    return conclude(run, gate, obl)
+
+
+CHECKS = {'C07': lambda t, s_: alloc_check('C07', t, s_), 'C08': lambda t, s_: alloc_check('C08', t, s_), 'C05': check_C05, 'C06': check_C06, 'C03': check_C03, 'C04': check_C04, 'C09': check_C09, 'C10': check_C10, 'C11': check_C11, 'C12': gen_check('C12', GEN_RULE), 'C13': gen_check('C13', GEN_RULE), 'C15': gen_check('C15', GEN_RULE), 'C20': gen_check('C20', GEN_RULE), 'C19': check_C19, 'C01': check_C01, 'C18': check_C18, 'C02': check_C02, 'C14': check_C14, 'C16': check_C16, 'C17': check_C17}
 
 
 def main():
